@@ -147,9 +147,13 @@ def run_contract_case(contract: Contract, case, registry: Registry, tier, seed):
         res["unsupported"] = "vacuous: no path reaches a return or raise (precondition unsatisfiable?)"
     if res["unsupported"]:
         return res
-    # discharge
+    # discharge (per contract-case budget: once exceeded, remaining obligations get a short timeout,
+    # so that a tree on which proofs no longer go through is reported undecided/refuted in bounded time)
+    budget_s = float(os.environ.get("PYVC_CASE_BUDGET_S", "90" if tier == "quick" else "600"))
+    spent = 0.0
     for ob in ex.obligations:
-        verdict, model, backend, dt = solve(ob.pc, ob.goal, timeout)
+        verdict, model, backend, dt = solve(ob.pc, ob.goal, timeout if spent < budget_s else 2000)
+        spent += dt
         entry = {"name": ob.name, "kind": ob.kind, "path": ob.path, "verdict": verdict, "backend": backend, "s": round(dt, 3), "closed": ob.closed, "where": ob.where, "note": ob.note, "size": len(ob.pc)}
         if verdict == "sat":
             env = getattr(ob, "env", {})
